@@ -295,7 +295,12 @@ class Output(IOutput, Loggable):
                 self._total_mem / 1048576,
             )
             self._mem_counter += 1
-            np.save(fn, data.magnitude)
+            magn = data.magnitude
+            if np.ma.isMaskedArray(magn):
+                # np.save can't store masked arrays; pickle keeps data and mask
+                magn.dump(fn)
+            else:
+                np.save(fn, magn)
             return fn
 
         self._total_mem += data_size
